@@ -32,6 +32,9 @@ type Case struct {
 	Repeat    int    `json:"repeat,omitempty"`
 	OrderKind string `json:"order_kind"`
 	Filter    *Keep  `json:"filter,omitempty"`
+	// Format "pbf": the document is handed to ExtractPBF as an OSM PBF file written by the check's own encoder (dense
+	// nodes, uncompressed blobs; the header declares Sort.Type_then_ID when the element order really is that)
+	Format string `json:"format,omitempty"`
 }
 
 var tagKeys = []string{"highway", "building", "name"}
@@ -284,7 +287,14 @@ func gen(t *rapid.T) Case {
 		c.Filter = &f
 		c.KeepTags = true
 	}
-	if rapid.IntRange(0, 3).Draw(t, "extras") == 1 {
+	if f := rapid.IntRange(0, 11).Draw(t, "format"); f == 2 || (f < 5 && c.OrderKind == "conventional") {
+		// (more often for documents in the conventional order: their header declares them sorted)
+		c.Format = "pbf"
+		if c.Repeat > 6 {
+			c.Repeat = 6 // a PBF scanner is set up for every pass: keep the stress engine's repetitions affordable
+		}
+	}
+	if c.Format == "" && rapid.IntRange(0, 3).Draw(t, "extras") == 1 {
 		// top-level elements that are not nodes, ways or relations; a changeset (a type extract does not know) only in
 		// the engines without the owned scheduler, whose model of the pool assumes that every worker finishes its object
 		kinds := []string{"bounds", "bounds", "bounds", "note", "user"}
@@ -361,7 +371,7 @@ var goroutineHeader = regexp.MustCompile(`(?m)^goroutine (\d+) \[([^\]]*)\]:$`)
 // send and no goroutine created by it (the workers of the pool) exists any more, nothing can ever receive and the call
 // cannot return; that state is permanent and read from one stop-the-world snapshot, so looking at it late or early
 // gives the same answer. Until then the wait goes on (a slow run is not a violation).
-func extractWatched(xml []byte, keep gosm.KeepFunc, keepTags bool) (data *gosm.Data, err error) {
+func extractWatched(xml []byte, keep gosm.KeepFunc, keepTags, pbf bool) (data *gosm.Data, err error) {
 	done := make(chan struct{})
 	idc := make(chan string, 1)
 	var pan interface{}
@@ -375,6 +385,10 @@ func extractWatched(xml []byte, keep gosm.KeepFunc, keepTags bool) (data *gosm.D
 			id = string(f[1])
 		}
 		idc <- id
+		if pbf {
+			data, err = gosm.ExtractPBF(context.Background(), bytes.NewReader(xml), keep, keepTags)
+			return
+		}
 		data, err = gosm.ExtractXML(context.Background(), bytes.NewReader(xml), keep, keepTags)
 	}()
 	id := <-idc
@@ -421,7 +435,7 @@ func extractWith(c Case, xml []byte) (data *gosm.Data, ctl *controller, err erro
 	keep := c.Keep.Func()
 	if c.Engine != "sched" {
 		gosm.VerifHook = nil
-		data, err = extractWatched(xml, keep, c.KeepTags)
+		data, err = extractWatched(xml, keep, c.KeepTags, c.Format == "pbf")
 		return
 	}
 	ctl = &controller{events: make(chan *park), nprocs: c.Procs, choices: c.Choices, policy: c.Policy}
@@ -432,7 +446,11 @@ func extractWith(c Case, xml []byte) (data *gosm.Data, ctl *controller, err erro
 	go func() {
 		defer close(done)
 		defer func() { pan = recover() }()
-		data, err = gosm.ExtractXML(context.Background(), bytes.NewReader(xml), ctl.wrapKeep(keep), c.KeepTags)
+		if c.Format == "pbf" {
+			data, err = gosm.ExtractPBF(context.Background(), bytes.NewReader(xml), ctl.wrapKeep(keep), c.KeepTags)
+		} else {
+			data, err = gosm.ExtractXML(context.Background(), bytes.NewReader(xml), ctl.wrapKeep(keep), c.KeepTags)
+		}
 	}()
 	if e := ctl.run(done); e != nil {
 		return nil, ctl, e
@@ -449,6 +467,13 @@ func run(c Case) (v vkit.Verdict) {
 		return runPBF(c)
 	}
 	xml := []byte(c.Doc.XML())
+	if c.Format == "pbf" {
+		xml = c.Doc.PBF(c.Doc.SortedByTypeThenID())
+		v.Class("format_pbf")
+		if c.Doc.SortedByTypeThenID() {
+			v.Class("pbf_header_declares_sorted")
+		}
+	}
 	want, dangling := Model(c.Doc, c.Keep)
 	v.Class("engine_" + c.Engine)
 	if c.IDKind != "" {
